@@ -709,3 +709,14 @@ fn resolve_symbol_name(address: u16) -> Option<&'static str> {
 pub fn print_help_message() {
     dprintln!(Always, Special, "\n{}", include_str!("./help.txt"));
 }
+
+#[cfg(lace_verif)]
+impl Debugger {
+    /// Breakpoint list as (address, is_predefined), in list order.
+    pub(crate) fn verif_breakpoints(&self) -> Vec<(u16, bool)> {
+        self.breakpoints
+            .iter()
+            .map(|b| (b.address, b.is_predefined))
+            .collect()
+    }
+}
